@@ -1,7 +1,87 @@
 (* C19 — schedule verdicts match the JSSP definition; only well-formed data accepted.
-   Property theorems only: each closed by `exact <lemma>` and followed by Print Assumptions. *)
+   Property theorems only: each closed by `exact <lemma>` and followed by Print Assumptions.
+   Model: Jssp/Instance.v (constructors), Jssp/Valid.v (is_valid / makespan / valid_schedule + the spec).
+   Hypotheses: wf_instance (the object passed every constructor), result_ok (the result constructor accepted the
+   schedule), keys_nodup (the schedule is a dict), at least one job (otherwise no latest end time exists). *)
 From QV Require Import Jssp.Valid Jssp.Valid_proofs.
+Open Scope string_scope.
 
-Theorem C19_placeholder : forall l, neighbours_ok l = true -> neighbours_ok (tl l) = true.
-Proof. exact neighbours_ok_tl. Qed.
-Print Assumptions C19_placeholder.
+(* The verdict computed neighbour-wise over start-time-sorted machine lists is the pairwise JSSP definition:
+   all scheduled /\ each operation starts no earlier than its predecessor's end /\ no two operations on one machine
+   overlap (valid_spec: over every ordered pair of the flattened schedule, not only sorted neighbours). *)
+Theorem C19_verdict : forall i s,
+  wf_instance i = true -> result_ok i s = true ->
+  exists b, is_valid_impl i s = Ok b /\ (b = true <-> valid_spec i s).
+Proof. exact is_valid_impl_verdict. Qed.
+Print Assumptions C19_verdict.
+
+(* The pairwise verdict does not depend on how ties are ordered: for ANY permutation sorted by start time the
+   neighbour check is the pairwise check (durations > 0). *)
+Theorem C19_sorted_neighbours_pairwise : forall l,
+  Forall pos_dur l -> Sorted.StronglySorted le_start l ->
+  (neighbours_ok l = true <-> ForallOrdPairs no_overlap l).
+Proof. exact sorted_neighbours_pairwise. Qed.
+Print Assumptions C19_sorted_neighbours_pairwise.
+
+(* makespan = latest end time over all operations when valid, absent otherwise *)
+Theorem C19_makespan : forall i s,
+  wf_instance i = true -> result_ok i s = true -> keys_nodup s -> inst_jobs i <> [] ->
+  (valid_spec i s ->
+     exists m, makespan_impl i s = Ok (Some m) /\
+               latest_end (map (fun kv => strip (snd kv)) s) = Some m) /\
+  (~ valid_spec i s -> makespan_impl i s = Ok None).
+Proof. exact makespan_impl_spec. Qed.
+Print Assumptions C19_makespan.
+
+(* the valid-schedule accessor raises exactly when invalid *)
+Theorem C19_accessor : forall i s,
+  wf_instance i = true -> result_ok i s = true ->
+  (valid_spec i s -> valid_schedule_impl i s = Ok s) /\
+  (~ valid_spec i s -> valid_schedule_impl i s = Err JSSPException).
+Proof. exact valid_schedule_impl_spec. Qed.
+Print Assumptions C19_accessor.
+
+(* constructors accept exactly the documented well-formedness rules *)
+Theorem C19_wellformed_machine : forall n, machine_ok n = true <-> n <> "".
+Proof. exact machine_ok_spec. Qed.
+Print Assumptions C19_wellformed_machine.
+
+Theorem C19_wellformed_operation : forall o,
+  operation_ok o = true <-> op_name o <> "" /\ op_job o <> "" /\ (1 <= op_dur o)%Z.
+Proof. exact operation_ok_spec. Qed.
+Print Assumptions C19_wellformed_operation.
+
+Theorem C19_wellformed_job : forall j,
+  job_ok j = true <->
+  job_name j <> "" /\ job_ops j <> [] /\ NoDup (map op_name (job_ops j)) /\
+  (forall o, In o (job_ops j) -> op_job o = job_name j) /\ NoDup (map op_machine (job_ops j)).
+Proof. exact job_ok_spec. Qed.
+Print Assumptions C19_wellformed_job.
+
+Theorem C19_wellformed_instance : forall i,
+  instance_ok i = true <->
+  inst_name i <> "" /\ NoDup (inst_machines i) /\ NoDup (map job_name (inst_jobs i)) /\
+  (forall j o, In j (inst_jobs i) -> In o (job_ops j) -> In (op_machine o) (inst_machines i)).
+Proof. exact instance_ok_spec. Qed.
+Print Assumptions C19_wellformed_instance.
+
+Theorem C19_wellformed_result : forall i s,
+  result_ok i s = true <->
+  (forall j, In j (inst_jobs i) -> In j (map fst s)) /\
+  (forall kv, In kv s -> In (fst kv) (inst_jobs i)) /\
+  (forall j, In j (inst_jobs i) -> exists row, sched_lookup s j = Some row /\ map fst row = job_ops j).
+Proof. exact result_ok_spec. Qed.
+Print Assumptions C19_wellformed_result.
+
+(* non-vacuity: the 2x2 instance of the test-suite meets every hypothesis, with a valid schedule of makespan 3,
+   an invalid one (machine overlap) and one with an unscheduled operation *)
+Example C19_nonvacuous :
+  wf_instance ex_inst = true /\ inst_jobs ex_inst <> [] /\
+  result_ok ex_inst (ex_sched (Some 0) (Some 1) (Some 0) (Some 1))%Z = true /\
+  keys_nodup (ex_sched (Some 0) (Some 1) (Some 0) (Some 1))%Z /\
+  is_valid_impl ex_inst (ex_sched (Some 0) (Some 1) (Some 0) (Some 1))%Z = Ok true /\
+  makespan_impl ex_inst (ex_sched (Some 0) (Some 1) (Some 0) (Some 1))%Z = Ok (Some 3%Z) /\
+  is_valid_impl ex_inst (ex_sched (Some 0) (Some 1) (Some 1) (Some 2))%Z = Ok false /\
+  is_valid_impl ex_inst (ex_sched (Some 0) None (Some 0) (Some 1))%Z = Ok false.
+Proof. exact ex_hypotheses. Qed.
+Print Assumptions C19_nonvacuous.
